@@ -107,6 +107,10 @@ def harness_for(cfg):
                     E.prove(False, "find_resource found an object that was never added")
                 except KeyError:
                     pass
+                # an abandoned traversal (linear search with early exit) is a query too
+                it = mm.all_resources()
+                next(it, None)
+                del it
             poke()
             for it in spec["items"]:
                 ctr[0] += 1
@@ -138,6 +142,14 @@ def harness_for(cfg):
             return mm, local
 
         root, oracle = build(shape)
+        # the root's sub-maps may also be mapped into another, unrelated root (a second bus master's view):
+        # that must not disturb this root
+        other = MemoryMap(addr_width=shape["aw"] + 2, data_width=shape["dw"])
+        for w_, n_, (s_, e_, r_) in list(root.windows()):
+            try:
+                other.add_window(w_, sparse=(True if w_.data_width != shape["dw"] and r_ == 1 else (False if r_ > 1 else None)))
+            except ValueError:
+                pass
         infos = list(root.all_resources())
         E.prove(len(infos) == len(oracle), "every added resource is reported exactly once")
         by_id = {id(r): (s, e, w, p) for r, s, e, w, p in oracle}
